@@ -96,6 +96,24 @@ CHECKS = {
              "e2e correspondence; the kernel model's two events are a hand-written table",
         technique="Lean 4 iff theorem over the channel stack model + whole-table decide over regenerated tables + differential ovniemu runs",
         design="DESIGN.md §5 C08"),
+    "C12": dict(
+        text=("Theorems (Props/C12.lean, 18) over a byte-level model of check_stream_header / load_obs / stream_step with the exact C "
+              "integer casts and ARBITRARY memory beyond the file: valid streams are accepted (non-vacuity); any single header "
+              "byte replaced by any other value, and files shorter than 8 bytes, are refused (bad_header_rejected, "
+              "short_header_rejected); a cut strictly inside the last event is refused (Fixed.truncation_rejected, full strength "
+              "for the code after the repair db50cd1; truncation_not_rejected keeps the decide witness for the code before it); "
+              "two adjacent events with different clocks exchanged anywhere are refused (swap_rejected); the metadata gates as "
+              "decision logic: checkStream accepts iff the spelled-out conjunction, each mandatory key missing or altered is "
+              "refused (thread_stream_spec, mandatory_key_rejected, trace_key_rejected); events of a model that is not required "
+              "and wrong payload sizes of size-checked events are refused (unrequired_model_rejected, "
+              "wrong_payload_size_rejected); the sticky is_jumbo of the old emu_ev is kept as a witness. Tie: the real stream.c "
+              "in an ASan harness vs the Lean cursor (every offset, accept/error, over-read), and `ovniemu -l` on every single "
+              "corruption of generated valid traces (thorough: all 255 wrong values of each header byte, every cut, every "
+              "adjacent swap, every mandatory key): exit != 0 and no 'emulation finished ok'."),
+        note=TB + "; int = 32-bit wrap, int64 offsets unbounded; metadata is logic over what the parson getters return (parson "
+             "assumed); unknown MCV inside an enabled model and handler size guards are carried by the e2e correspondence",
+        technique="Lean 4 theorems over a byte-level cursor with adversarial out-of-file memory + single-corruption differential runs",
+        design="DESIGN.md §5 C12"),
     "C13": dict(
         text=("Theorems (Props/C13.lean, 16) over the Paraver writer model (prv_advance guard, lines written at the current "
               "time, header rewritten at close) and the record generation of the reference emulator: for every accepted "
@@ -179,6 +197,23 @@ CHECKS = {
              "is covered by the correspondence (threads defined in random orders), not by a theorem",
         technique="Lean 4 guard/merge theorems over transcriptions of the mark API and mark.c + differential runs of libovni and ovniemu",
         design="DESIGN.md §5 C17"),
+    "C19": dict(
+        text=("Theorems (Props/C19.lean, 17) over the same byte-level cursor, for ALL byte strings: for the code after the repair "
+              "db50cd1 every successful stream_step advances the offset by at least 12 and stays within the file, so the "
+              "loop ends within size/12+1 calls (Fixed.cursor_progress, Fixed.terminates), every read lies inside [0,size) "
+              "(Fixed.reads_in_bounds), the verdict and the reads do not depend on memory beyond the file "
+              "(Fixed.garbage_independent), print_arg reads are guarded (Fixed.print_reads_guarded); for the code before the "
+              "repair the negations are proved with decide witnesses (never_terminates, not_cursor_progress, "
+              "reads_out_of_bounds_header/_negative, not_reads_in_bounds, print_null_payload) and the _partial theorems hold "
+              "under the explicit decidable guard. Tie: the real stream.c in an ASan/UBSan harness vs the cursor on thousands "
+              "of mutated streams (every offset, over-read, overflow, hang predicted and observed); structure-aware mutants "
+              "(size fields, flags, truncation, payload shapes, JSON types) through ovniemu, ovnidump, ovnitop, ovnisort built "
+              "with ASan+UBSan and the OVNI_VERIF heap-buffer hook, 5 s timeout: exit 0 or 1 only. Seven defects found and "
+              "repaired (see KNOWN_FINDINGS.txt)."),
+        note=TB + "; PARTIAL BY NATURE: parson on arbitrary JSON, the die()->abort policy and everything behind the front end "
+             "(handlers, PCF writers) are covered only by the sanitizer runs, not by theorems",
+        technique="Lean 4 termination/bounds theorems over a byte-level cursor + sanitizer-instrumented mutation runs of the four tools",
+        design="DESIGN.md §5 C19"),
     "C20": dict(
         text=("Theorems (Props/C20.lean, 17): sort_replace = insertSorted . erase under its preconditions, hence sorted and an exact "
               "multiset update (sort_replace_spec, sort_replace_sorted_multiset); after every history of input changes the sort "
@@ -211,7 +246,7 @@ def main():
             "guard": "OVNI_VERIF",
             "enable": "checks build /repo's working tree with cmake -DCMAKE_C_FLAGS=-DOVNI_VERIF (checks/lib/vcommon.py: repo_build)",
             "baseline_off_cmd": "cmake -G Ninja -S /repo -B /repo/_build >/dev/null && cmake --build /repo/_build >/dev/null && ctest --test-dir /repo/_build -j8 --timeout 900",
-            "source_commits": [],
+            "source_commits": ["4d5b914"],
             "add_only": True,
         },
         "engines": [
